@@ -23,6 +23,19 @@ CHECKS = {
              'copy() is checked for equal contents/order, independence and an untouched source. Bounded model checking.',
         note='Trusted: CrossHair path exhaustion, z3, the reference cache. Outside: max_size > 3 (quick) / 4 (thorough), longer histories.',
         ref='C02'),
+    'C03': dict(
+        engine='E3',
+        technique='source-to-coroutine transformation of the real LRI/LRU methods (yield before every shared-state access, model of the re-entrant '
+                  'lock) executed under CrossHair/z3 with a SYMBOLIC schedule (first thread + switch points over numbered choice points); '
+                  'linearizability oracle on the untransformed class; counterexample schedules replayed on real threads under sys.settrace',
+        text='Two logical threads each run one operation ([] =, [], del, pop, popitem, clear, setdefault, update, ==, get; every operation paired '
+             'with [] = and with itself on LRU, [] = pairs also on LRI) on a shared cache of capacity 1..2 holding 0..2 entries, every key-equality '
+             'pattern; for every schedule with at most 2 pre-emptions at any choice points the results, final contents, eviction order (probed by '
+             'inserting fresh keys), len <= max_size and usability equal one sequential order. Each run first checks the transformed classes '
+             'against the originals on 18000 sequential steps and refutes an in-memory mutant (lock removed from __setitem__). Bounded model checking of schedules.',
+        note='Trusted: the transformer (self-checked every run), yield placement at statements touching shared state, GIL atomicity of single dict operations, CrossHair/z3. '
+             'Outside: >2 threads, >1 operation per thread (quick), >2-3 pre-emptions, copy/iteration concurrent with writers, counters, free-threaded builds.',
+        ref='C03'),
     'C04': dict(
         technique='bounded symbolic execution (CrossHair/z3) of the real AtomicSaver code over an in-memory POSIX/durability model: crash point, '
                   'lost un-synced suffix, written byte strings and buffer limit are solver variables',
@@ -226,6 +239,8 @@ def main():
         'engines': [
             {'name': 'E1', 'path': 'vf/worker.py', 'serves_properties': sorted(p for p in CHECKS if CHECKS[p].get('engine', 'E1') == 'E1'),
              'kind_free_text': E1},
+            {'name': 'E3', 'path': 'vf/coro.py', 'serves_properties': ['C03'],
+             'kind_free_text': 'AST transformer turning LRI/LRU methods into coroutines + symbolic-schedule scheduler, executed by E1; real-thread replay'},
             {'name': 'E2', 'path': 'vf/pysym.py', 'serves_properties': sorted(p for p in CHECKS if CHECKS[p].get('engine', 'E1') == 'E2') + ['C20'],
              'kind_free_text': 'own AST-walking symbolic interpreter producing z3 terms (reals/ints, bounded unrolling) and SMT-LIB for cvc5 (QF_FP); direct z3 lemmas (vf/direct.py)'},
         ],
